@@ -6,6 +6,7 @@ use quote::{quote, ToTokens, TokenStreamExt};
 use syn::{parse_quote, Meta};
 
 use crate::ast::NestedMeta;
+use crate::util::path_to_string;
 use crate::{Error, FromMeta, Result};
 
 /// Receiver struct for shape validation. Shape validation allows a deriving type
@@ -37,7 +38,13 @@ impl FromMeta for DeriveInputShapeSet {
         let mut new = DeriveInputShapeSet::default();
         for item in items {
             if let NestedMeta::Meta(Meta::Path(ref path)) = *item {
-                let ident = &path.segments.first().unwrap().ident;
+                // A shape word is a single identifier; `struct_named::x` is not one.
+                let ident = match path.get_ident() {
+                    Some(ident) => ident,
+                    None => {
+                        return Err(Error::unknown_value(&path_to_string(path)).with_span(path))
+                    }
+                };
                 let word = ident.to_string();
                 if word == "any" {
                     new.any = true;
@@ -137,7 +144,8 @@ impl DataShape {
     }
 
     fn set_word(&mut self, word: &str) -> Result<()> {
-        match word.trim_start_matches(self.prefix) {
+        // Strip the prefix once: `struct_struct_named` is not a shape word.
+        match word.strip_prefix(self.prefix).unwrap_or(word) {
             "newtype" => {
                 self.newtype = true;
                 Ok(())
@@ -170,7 +178,14 @@ impl FromMeta for DataShape {
 
         for item in items {
             if let NestedMeta::Meta(Meta::Path(ref path)) = *item {
-                errors.handle(new.set_word(&path.segments.first().unwrap().ident.to_string()));
+                match path.get_ident() {
+                    Some(ident) => {
+                        errors.handle(new.set_word(&ident.to_string()));
+                    }
+                    None => {
+                        errors.push(Error::unknown_value(&path_to_string(path)).with_span(path));
+                    }
+                }
             } else {
                 errors.push(Error::unsupported_format("non-word").with_span(item));
             }
